@@ -156,16 +156,27 @@ def make_history(args):
             else:
                 nd_ = (d + 7.5) % 360.0
             dvers.append(nd_)
-            obj["dir"] = nd_
+            st = rng.choice(["item", "coords", "tuple"])
+            if st == "item":
+                obj["dir"] = nd_
+            elif st == "coords":
+                obj.coords["dir"] = nd_
+            else:
+                obj["dir"] = ("dir", nd_)
             results.append(None)
         elif r < 0.76:
             ops.append("af")
             nf_ = fvers[-1] * rng.choice([1.25, 0.5]) if rng.random() < 0.7 else fvers[-1] + 0.015625
             fvers.append(nf_)
-            obj["freq"] = nf_
+            if rng.random() < 0.5:
+                obj["freq"] = nf_
+            else:
+                obj.coords["freq"] = nf_
             results.append(None)
         elif r < 0.8:
             mk, mth = rng.randint(2, 9), rng.randint(2, 9)
+            if rng.random() < 0.5:
+                mk, mth = nd, nf  # same number of bins as the object under test, different shape
             ops.append(f"pt:{mk}:{mth}")
             z = np.array([[rng.random() for _ in range(mth)] for _ in range(mk)])
             np_ptm3(z, z, np.linspace(0.05, 0.4, mk), np.linspace(0, 360, mth, endpoint=False), parts=2)
